@@ -222,6 +222,29 @@ func TestC11(t *testing.T) {
 	}
 	rec(nil)
 
+	// a big table: more than 2 000 identities with live and expired bindings around permanent ones (anything that tidies the
+	// table up when it grows must leave every entry that is in force - permanent ones above all - where it is)
+	for rep := 0; rep < scale(1, 4); rep++ {
+		big := dbCfg{network: 0x0a320000, mask: 0xffff0000, hasRange: true, rb: ip4(0x0a320100), re: ip4(0x0a320cff)}
+		perm1, perm2 := []byte{0, 3, 0, 0, 2, 0xaa, 0, 0, 0, 1}, []byte{0, 3, 0, 0, 2, 0xbb, 0, 0, 0, 9}
+		ops := []dbOp{{kind: 3, ip: ip4(0x0a320009), duid: perm1}, {kind: 3, ip: ip4(0x0a320105), duid: perm2}}
+		n := 2100 + r.Intn(300)
+		for i := 0; i < n; i++ {
+			ttl := time.Hour
+			if i%3 == 0 {
+				ttl = 2 * time.Second // in the table, and run out before the history ends (the clock advances 4 s)
+			}
+			ops = append(ops, dbOp{kind: 1, ip: ip4(0x0a320200 + uint32(i)), duid: []byte{0xb0, byte(i >> 8), byte(i), byte(rep), 7}, ttl: ttl})
+			if i%500 == 499 {
+				ops = append(ops, dbOp{kind: 2, duid: perm1}, dbOp{kind: 2, duid: perm2}, dbOp{kind: 5, dt: time.Second})
+			}
+		}
+		ops = append(ops, dbOp{kind: 2, duid: perm1}, dbOp{kind: 2, duid: perm2},
+			dbOp{kind: 1, ip: ip4(0x0a320009), duid: []byte{0xc0, 1}, ttl: time.Hour}, // the reserved address is not available to anybody else
+			dbOp{kind: 4, ip: nil, duid: perm2, probeNs: 0}, dbOp{kind: 2, duid: []byte{0xb0, 0, 1, byte(rep), 7}})
+		runDBHistory(t, c, "big-table", big, ops)
+	}
+
 	// random histories over 3-5 addresses x 3 identities, several configurations
 	cfgs := []dbCfg{
 		{network: 0x0a000000, mask: 0xfffffff8},
